@@ -547,6 +547,8 @@ def matches_finding(f, r):
         over = [1 for v, k in routines(cfg, t) if _bits(k) > LIM.get(v, INF)]
         if not over:
             return False
+        if got.startswith("CRASH"):
+            return False                      # -> long_scalar_memory
         return (got == "err") == (pred == "long_scalar_rejected")
     if pred == "lwreg_extnd_t":
         # ed_mul_reg_imp: `#if ED_Afp == EXTND` never holds, the T coordinate of the parity correction is not copied
@@ -555,7 +557,7 @@ def matches_finding(f, r):
     if pred == "lwreg_reg_overflow":
         return cfg.endswith("-san") and got.startswith("CRASH") and any(v == "lwreg" for v, _ in routines(cfg, t))
     if pred == "long_scalar_memory":
-        return cfg.endswith("-san") and got.startswith("CRASH") and any(_bits(k) > LIM.get(v, INF) for v, k in routines(cfg, t))
+        return got.startswith("CRASH") and any(_bits(k) > LIM.get(v, INF) for v, k in routines(cfg, t))
     if pred == "sub_extnd_other_builds":
         return t[0] == "ed2" and t[1] == "sub_extnd" and SYS[cfg] != "extnd"
     if pred == "neg_basic_z":
